@@ -266,6 +266,9 @@ structure Edge where
   f : Nat
   /-- depth-neutral statement executed on the frame before the recursive step -/
   noise : Char := '0'
+  /-- variant of the frame-local work wrapped around the step (2: filter block, 3: set block —
+      both capture the output —, 4: autoescape block) -/
+  x : Nat := 0
   deriving Repr
 
 /-- a completed nested construct; `swallow`: a Rust callback discards the error of the construct,
@@ -306,6 +309,9 @@ def noiseOf : Char → Option Noise
   -- `get_template` fails before any charge is taken; rendered by a callback that swallows the error
   | 'g' => some ⟨[.enter .blockCall, .missingInclude, .leave], true⟩
   | 'h' => some ⟨[.enter .blockCall, .missingInclude, .leave], true⟩
+  -- `super()` / `{% set q = super() %}` in a block that has a parent
+  | 'i' => some ⟨[.enter .superCall, .leave], false⟩
+  | 'j' => some ⟨[.enter .superCall, .leave], false⟩
   | _ => none
 
 /-- run a depth-neutral statement: the state afterwards is the state before -/
@@ -328,6 +334,14 @@ def edgeEvents (fam : Char) (k : Char) (first : Bool) : Option (List Ev) :=
   | 'T', 'B' => some [Ev.enter .blockCall, Ev.enter .includeTpl]
   | 'T', 'L' => some [Ev.push, Ev.push, Ev.enter .includeTpl]
   | 'T', 'Y' => some [Ev.enter .macroCall, Ev.push, Ev.enter .includeTpl]
+  -- a list of candidates whose first does not exist / an optional include of a template that
+  -- exists / both (candidates after the one that is found are not looked at) / from-import
+  | 'T', 'X' => some [Ev.missingInclude, Ev.enter .includeTpl]
+  | 'T', 'Z' => some [Ev.enter .includeTpl]
+  | 'T', 'V' => some [Ev.missingInclude, Ev.enter .includeTpl]
+  | 'T', 'F' => some [Ev.push, Ev.enter .includeTpl]
+  -- the node extends a parent: the block it overrides was entered before its work (`edgePre`)
+  | 'T', 'E' => some [Ev.enter .includeTpl]
   | 'M', 'M' => some [Ev.enter .macroCall]
   | 'M', 'A' => some [Ev.enter .macroCall]
   | 'M', 'C' => some [Ev.enter .macroCall, Ev.enter .callerCall, Ev.enter .macroCall]
@@ -346,6 +360,8 @@ def edgeEvents (fam : Char) (k : Char) (first : Bool) : Option (List Ev) :=
   -- nested call blocks: caller() chains
   | 'M', 'N' => some [Ev.enter .macroCall, Ev.enter .callerCall, Ev.enter .macroCall,
       Ev.enter .callerCall, Ev.enter .macroCall]
+  -- an imported macro that calls the macro it is handed
+  | 'M', 'I' => some [Ev.enter .macroCall, Ev.enter .macroCall]
   | 'B', 'B' => some [Ev.enter .blockCall]
   | 'B', 'V' => some [Ev.enter .blockCall]
   | 'B', 'R' => some [Ev.enter .blockCall]
@@ -356,6 +372,13 @@ def edgeEvents (fam : Char) (k : Char) (first : Bool) : Option (List Ev) :=
     else some [Ev.enter .blockCall, Ev.enter .blockCall]
   | _, _ => none
 
+/-- what a node does before its work frames: a template that extends a parent runs its work inside
+    the block it overrides (`CallBlock` of the parent's instructions, same activation) -/
+def edgePre (fam : Char) (k : Char) : List Ev :=
+  match fam, k with
+  | 'T', 'E' => [Ev.enter .blockCall]
+  | _, _ => []
+
 def entryEvents : Char → List Ev
   | 'M' => [Ev.enter .macroCall]
   | 'B' => [Ev.enter .blockCall]
@@ -365,13 +388,19 @@ def entryEvents : Char → List Ev
     (if the budget allows) the edge; `fuel` visits at most.  Also returns the visit at which the
     run ended (the cut-off the finite-recursion cases are placed around). -/
 def cycle (fam : Char) (edges : Array Edge) (budget : Option Nat) :
-    Nat → Nat → St → Marks → Pred × Nat
-  | 0, t, _, _ => (.other "fuel", t)
-  | fuel + 1, t, s, m =>
+    Nat → Nat → St → Marks → Bool → Pred × Nat
+  | 0, t, _, _, _ => (.other "fuel", t)
+  | fuel + 1, t, s, m, disc =>
     match edges[t % edges.size]? with
     | none => (.other "empty", t)
     | some e =>
-      match runMarks s m (List.replicate (e.w + e.f) Ev.push) with
+      -- `disc`: the innermost capture of the output discards (below a `{% from … import … %}` with
+      -- no capturing construct in between): `CallBlock` does nothing then, so a node that works
+      -- inside the block it overrides does nothing at all
+      if disc ∧ fam = 'T' ∧ e.kind = 'E' then (.ok m, t) else
+      -- a filter block / set block around the step captures: what is below it is not discarded
+      let dnode := disc && !(e.x = 2 || e.x = 3)
+      match runMarks s m (edgePre fam e.kind ++ List.replicate (e.w + e.f) Ev.push) with
       | .error p => (p, t)
       | .ok (s0, m0) =>
         match (noiseOf e.noise).map (runNoise s0 m0) with
@@ -379,22 +408,31 @@ def cycle (fam : Char) (edges : Array Edge) (budget : Option Nat) :
         | some (.error p) => (p, t)
         | some (.ok (s1, m1)) =>
           if budget.any (t ≥ ·) then (.ok m1, t)
+          -- a `{% block %}` statement is skipped while the output is discarded: the recursion ends here
+          else if dnode ∧ fam = 'T' ∧ e.kind = 'B' then (.ok m1, t)
           else
             match edgeEvents fam e.kind (t < edges.size) with
             | none => (.other "bad-edge", t)
             | some evs =>
               match runMarks s1 m1 evs with
               | .error p => (p, t)
-              | .ok (s2, m2) => cycle fam edges budget fuel (t + 1) s2 m2
+              | .ok (s2, m2) =>
+                -- from-import discards; import, `loop(…)`, macros and call blocks capture
+                cycle fam edges budget fuel (t + 1) s2 m2
+                  (fam = 'T' && (e.kind = 'F' || (dnode && !(e.kind = 'P' || e.kind = 'L' || e.kind = 'W'
+                    || e.kind = 'K' || e.kind = 'Y'))))
 
 def predictCycleV (fam : Char) (edges : Array Edge) (limit : Nat) (budget : Option Nat) : Pred × Nat :=
   let s0 := init limit
   let m0 : Marks := ⟨s0.cur.depth, nativeDepth s0⟩
-  match runMarks s0 m0 (entryEvents fam) with
+  -- `{% from "applylib" import applym %}` at the top of the template, where an edge uses it
+  let prelude : List Ev :=
+    if fam = 'M' ∧ edges.any (·.kind = 'I') then [.push, .enter .includeTpl, .leave, .pop] else []
+  match runMarks s0 m0 (prelude ++ entryEvents fam) with
   | .error p => (p, 0)
   | .ok (s1, m1) =>
     -- every visit adds at least one depth unit; the cap only matters when the limit is not clamped
-    cycle fam edges budget (min (limit + (budget.getD 0) + 3) 5000) 0 s1 m1
+    cycle fam edges budget (min (limit + (budget.getD 0) + 3) 5000) 0 s1 m1 false
 
 def predictCycle (fam : Char) (edges : Array Edge) (limit : Nat) (budget : Option Nat) : Pred :=
   (predictCycleV fam edges limit budget).1
@@ -424,6 +462,7 @@ def predictNoise (ctx noise : Char) (limit : Nat) : Pred :=
     | 'm' => some [.enter .macroCall]
     | 'b' => some [.enter .blockCall]
     | 'x' => some [.enter .macroCall, .enter .includeTpl]
+    | 's' => some [.enter .blockCall]
     | _ => none
   match pre, noiseOf noise with
   | some pre, some n =>
